@@ -193,6 +193,14 @@ def run(ctx):
     finally:
         shutil.rmtree(tmpd, ignore_errors=True)
 
+    # ---- operands that are sort views
+    util.view_operand_cases(etl, rng, ctx, [
+        ('sort', 1, lambda t: etl.sort(t, 'x')), ('sort(reverse)', 1, lambda t: etl.sort(t, 'x', reverse=True)),
+        ('sort(None)', 1, lambda t: etl.sort(t)), ('sort(compound)', 1, lambda t: etl.sort(t, ('x', 'xy'))),
+        ('sort(buffersize=1)', 1, lambda t: etl.sort(t, 'x', buffersize=1)),
+        ('mergesort', 2, lambda a, b: etl.mergesort(a, b, key='x')), ('mergesort(reverse)', 2, lambda a, b: etl.mergesort(a, b, key='x', reverse=True)),
+        ('issorted', 1, lambda t: [[etl.issorted(t, 'x'), etl.issorted(t, 'x', strict=True), etl.issorted(t, 'x', reverse=True, strict=True)]]),
+    ], 240 if ctx.thorough() else 60)
 
 def replay(d):
     print('replay case:', d.get('case'))
